@@ -428,7 +428,9 @@ class Unit:
             xx = {k: v for k, v in x.items() if k != "inst"}
             out.append({"ev": "side", "x": xx, "o": project(self.kind, x, sent, r), "uid": self.uid,
                         "raw": {k: r.get(k) for k in ("id", "procs", "acts", "err", "panic", "est") if r.get(k) not in (None, [], "")}})
-        if self.kind == "UserDefinedMetrics":
+        if self.kind == "UserDefinedMetrics" and self.prefix() != "lunar_":
+            # (a metric_name of the wrong type reads as "": the family lunar_ is shared by every such engine of the process and
+            #  cannot be attributed to this one - its exposition is not judged)
             ms = [r for r in body if r["ev"] == "metrics"]
             out.append({"ev": "shown", "samples": delta_samples(self.family(ms[0]["samples"]), self.family(ms[1]["samples"])), "uid": self.uid})
         return out
@@ -584,7 +586,9 @@ def run_cases(ctx, binary, cases, tag, stats, dev=ALLDEV):
             ev2 = u2.abstract(r2)
             rej2, _, _ = judge(ctx, ev2, dev, tag + "-repro")
             if not rej2:
-                raise Broken("rejection not reproduced (%s %s): %s" % (tag, what, json.dumps(show_event(e))[:500]))
+                raise Broken("rejection not reproduced (%s %s, unit %s, parameters %s): %s\nFIRST RUN: %s\nSECOND RUN: %s" % (
+                    tag, what, u.uid, json.dumps(show_par(u.par)), json.dumps(show_event(e))[:500], json.dumps([show_event(z) for z in per_unit[ui]])[:6000],
+                    json.dumps([show_event(z) for z in ev2])[:6000]))
             w = {"class": "%s-%s" % (u.kind, what.strip('"')), "kind": u.kind, "parameters": show_par(u.par), "event": show_event(e)}
             ctx.violation(w, {"kind": u.kind, "case": {"kind": u.kind, "par": u.par, "env": u.env, "xs": u.xs}, "side": u.side})
     return units, per_unit
@@ -653,7 +657,7 @@ def rand_filter_case(rng):
     par = {}
     n = rng.choice([1, 1, 1, 2, 2, 3])
     crit = rng.sample(["url", "url", "method", "header", "status", "endpoint"], n)
-    for c in set(crit):
+    for c in sorted(set(crit)):
         if c == "url":
             if rng.random() < 0.6:
                 par["url"] = VStr(rand_pattern(rng))
@@ -896,24 +900,24 @@ def run(ctx):
             for c in cs:
                 cases.append({"kind": c["kind"], "par": c["par"] or {}, "env": c["env"], "xs": c["xs"],
                               "pred": {"load": c["load"], "obs": c["obs"], "samples": c["samples"]}})
-    units, per_unit = run_cases(ctx, binary, cases, "g", stats)
-    nsides = sum(len(u.xs) for u in units)
-    ctx.log("generated: %d cases on %d engines, %d sides; %d flows refused by the loader; drift %d" % (len(cases), len(units), nsides, stats["refused"], stats["drift"]))
-    ex = next((e for u, evs in zip(units, per_unit) for e in evs if e["ev"] == "side" and u.kind == "Filter" and e["o"]["next"] == "miss"), None)
+    # (3) code -> spec: seeded random cases (same executor run, same validation pass as the generated ones)
+    nf, no = (70, 64) if not T else (700, 640)
+    ngen = len(cases)
+    rcases = [rand_filter_case(rng) for _ in range(nf)] + [rand_other_case(rng, i) for i in range(no)]
+    units, per_unit = run_cases(ctx, binary, cases + rcases, "c", stats)
+    gen_units = [(u, evs) for u, evs in zip(units, per_unit) if int(re.match(r"c(\d+)", u.uid).group(1)) < ngen]
+    rnd_units = [(u, evs) for u, evs in zip(units, per_unit) if int(re.match(r"c(\d+)", u.uid).group(1)) >= ngen]
+    ctx.log("generated: %d cases on %d engines, %d sides; random: %d cases on %d engines, %d sides; %d flows refused by the loader; drift %d" % (
+        ngen, len(gen_units), sum(len(u.xs) for u, _ in gen_units), len(rcases), len(rnd_units), sum(len(u.xs) for u, _ in rnd_units),
+        stats["refused"], stats["drift"]))
+    ex = next((e for u, evs in gen_units for e in evs if e["ev"] == "side" and u.kind == "Filter" and e["o"]["next"] == "miss"), None)
     if ex:
         ctx.sample({"kind": "tlc-case-replayed", "event": show_event(ex)})
     ctx.cov["exhaustive"] = bool(T)
-
-    # (3) code -> spec: seeded random cases
-    nf, no = (70, 64) if not T else (700, 640)
-    rcases = [rand_filter_case(rng) for _ in range(nf)] + [rand_other_case(rng, i) for i in range(no)]
-    before = stats["loads"]
-    units2, per2 = run_cases(ctx, binary, rcases, "r", stats)
-    ctx.log("random: %d cases on %d engines, %d sides" % (len(rcases), len(units2), sum(len(u.xs) for u in units2)))
-    ex = next((e for u, evs in zip(units2, per2) for e in evs if e["ev"] == "side" and u.kind == "DataSanitation" and "masked" in e["o"]["toks"]), None)
+    ex = next((e for u, evs in rnd_units for e in evs if e["ev"] == "side" and u.kind == "DataSanitation" and "masked" in e["o"]["toks"]), None)
     if ex:
         ctx.sample({"kind": "recorded-sanitation", "event": show_event(ex)})
-    ex = next((e for u, evs in zip(units2, per2) for e in evs if e["ev"] == "shown" and e["samples"]), None)
+    ex = next((e for u, evs in rnd_units for e in evs if e["ev"] == "shown" and e["samples"]), None)
     if ex:
         ctx.sample({"kind": "recorded-metrics", "event": show_event(ex)})
 
@@ -935,13 +939,14 @@ def run(ctx):
             ctx.notes.append("DOC-CODE DISAGREEMENT (%s - %s): %d recorded events are accepted only because the deviation is listed, e.g. %s" % (
                 d, DEV_TEXT[d], stats["dev"][d], json.dumps(stats["dev_examples"][d])[:1100]))
     missing = [d for d in ALLDEV if d not in stats["dev"]]
-    if missing and not ctx.violations:
-        raise Broken("named deviations never needed by a recorded event (the specification lists what the engine does not do): %s" % missing)
+    if missing:
+        # (that each deviation is needed by the engine MODEL is checked by TLC above; a repaired engine no longer needs it: not an error)
+        ctx.notes.append("named deviations not needed by any recorded event of this run (the engine does what the texts say there): %s" % missing)
 
     # (4) binding self-test (thorough): corrupted recordings must be rejected
     if T:
         def first(kind, pred):
-            for u, evs in zip(units, per_unit):
+            for u, evs in gen_units:
                 if u.kind == kind and not u.refused:
                     for i, e in enumerate(evs):
                         if e["ev"] == "side" and pred(e):
